@@ -1,4 +1,5 @@
 import Nsq.Proofs.HttpGet
+import Nsq.Props.C20Opts
 /-!
 # C20 — nsq_to_http GET mode: the request target carries the body exactly (audit round 7, item C23)
 
@@ -87,7 +88,22 @@ theorem get_main_check_sufficient_false : ¬ get_main_check_sufficient := by
   revert this
   decide
 
+/-- the hypothesis `naddr ≠ 0` of `http_no_silent_drop` / `http_eventual_delivery_partial` /
+`tool_fin_only_after_accept_partial` is discharged by main()'s validation (`--get or --post required`): a started
+nsq_to_http has at least one destination address (`posts` POST addresses or `getCounts.length` GET addresses). -/
+theorem http_valid_start_has_address (a : Nsq.Model.RelayOpts.HttpArgs) (h : Nsq.Model.RelayOpts.validateHttp a = none) :
+    a.posts + a.getCounts.length ≠ 0 := by
+  have hv := (Nsq.Props.C20Opts.n2h_starts_only_when_valid a h).2.2.2.2.2.1
+  rcases hv with ⟨hp, _⟩ | ⟨_, hg⟩
+  · omega
+  · have : a.getCounts.length ≠ 0 := fun e => hg (List.length_eq_zero_iff.mp e)
+    omega
+
 /-! ### non-vacuity -/
+
+example : Nsq.Model.RelayOpts.validateHttp ⟨true, false, false, false, false, 1, 0, 0, [1], true⟩ = none := by decide   -- one --get
+example : Nsq.Model.RelayOpts.validateHttp ⟨true, false, false, false, false, 1, 0, 0, [], true⟩ = some .noDest := by decide
+
 
 -- "/p?x=50%%25&d=%s" with body "a b&c" → "/p?x=50%25&d=a+b%26c"
 example : endpoint [47, 112, 63, 120, 61, 53, 48, 37, 37, 50, 53, 38, 100, 61, 37, 115] [97, 32, 98, 38, 99] =
